@@ -337,6 +337,12 @@ def oobNamesSize : List (List Nat) → Nat
   | [] => 0
   | n :: ns => stringSize n + oobNamesSize ns
 
+/-- an optional stream: no directory entry when the model has none -/
+def optList {α β : Type} (o : Option α) (g : α → β) : List β :=
+  match o with
+  | none => []
+  | some a => [g a]
+
 /-- sizes of the streams the encoder emits after the extras, by formula (they do not depend on
     where the out-of-band data ends up) -/
 def coreStreamSizes (m : DumpModel) (f : MemForm) : List (Nat × Nat) :=
@@ -348,8 +354,8 @@ def coreStreamSizes (m : DumpModel) (f : MemForm) : List (Nat × Nat) :=
    (ST_MEMORY_INFO_LIST, 12 + 48 * m.memInfo.length),
    (ST_THREAD_NAMES, listHeaderSize m.pad + 12 * m.threadNames.length),
    (ST_UNLOADED_MODULE_LIST, 12 + 24 * m.unloaded.length)] ++
-  (match m.exception with | none => [] | some _ => [(ST_EXCEPTION, 168)]) ++
-  (match m.sysInfo with | none => [] | some _ => [(ST_SYSTEM_INFO, 56)])
+  optList m.exception (fun _ => (ST_EXCEPTION, 168)) ++
+  optList m.sysInfo (fun _ => (ST_SYSTEM_INFO, 56))
 
 def streamSizes (m : DumpModel) (f : MemForm) : List (Nat × Nat) :=
   m.extra.map (fun x => (x.1, x.2.length)) ++ coreStreamSizes m f
@@ -400,8 +406,8 @@ def coreStreams (m : DumpModel) (e : Endian) (f : MemForm) : List (Nat × List U
    (ST_MEMORY_INFO_LIST, encMemInfoList e m.memInfo),
    (ST_THREAD_NAMES, encThreadNames e m.pad o.names m.threadNames),
    (ST_UNLOADED_MODULE_LIST, encUnloadedList e o.unloaded m.unloaded)] ++
-  (match m.exception with | none => [] | some x => [(ST_EXCEPTION, encException e o.exc x)]) ++
-  (match m.sysInfo with | none => [] | some s => [(ST_SYSTEM_INFO, encSysInfo e o.csd s)])
+  optList m.exception (fun x => (ST_EXCEPTION, encException e o.exc x)) ++
+  optList m.sysInfo (fun s => (ST_SYSTEM_INFO, encSysInfo e o.csd s))
 
 def allStreams (m : DumpModel) (e : Endian) (f : MemForm) : List (Nat × List UInt8) :=
   m.extra ++ coreStreams m e f
@@ -592,6 +598,15 @@ def reportThread (t : MThread) : RThread :=
 def namesMap (ns : List (Nat × List Nat)) : List (Nat × List Nat) :=
   ns.foldl (fun acc p => mapInsert p.1 p.2 acc) []
 
+def reportException (x : MException) : RException :=
+  { threadId := x.threadId, code := x.code, flags := x.flags, record := x.record, address := x.address,
+    numberParameters := x.numberParameters, info := x.info, ctx := some x.ctx }
+
+def reportSysInfo (s : MSysInfo) : RSysInfo :=
+  { arch := s.arch, level := s.level, revision := s.revision, nproc := s.nproc, productType := s.productType,
+    major := s.major, minor := s.minor, build := s.build, platform := s.platform, suite := s.suite, cpu := s.cpu,
+    csd := some s.csd }
+
 /-- What reading `encode m e f` yields: items in file order; a thread with an empty stack has no
     stack memory; modules with a "bad image size" (0, or reaching past 2^64-1) are skipped by the
     module list, while ONE such entry fails the whole unloaded-module list; the 32-bit memory list
@@ -609,14 +624,10 @@ def report (m : DumpModel) (e : Endian) (f : MemForm) : Reported :=
       else .ok m.unloaded,
     exception := match m.exception with
       | none => .error .StreamNotFound
-      | some x => .ok { threadId := x.threadId, code := x.code, flags := x.flags, record := x.record,
-                         address := x.address, numberParameters := x.numberParameters, info := x.info,
-                         ctx := some x.ctx },
+      | some x => .ok (reportException x),
     sysInfo := match m.sysInfo with
       | none => .error .StreamNotFound
-      | some s => .ok { arch := s.arch, level := s.level, revision := s.revision, nproc := s.nproc,
-                         productType := s.productType, major := s.major, minor := s.minor, build := s.build,
-                         platform := s.platform, suite := s.suite, cpu := s.cpu, csd := some s.csd } }
+      | some s => .ok (reportSysInfo s) }
 
 /-! ## memory lookup: `memory_at_address` + `get_memory_at_address::<u8>` -/
 
